@@ -207,6 +207,12 @@ def examine_parse(case):
         if case['default_of'] == 'format':
             a, b = call(athlib.format_seconds_as_time, x), call(athlib.format_seconds_as_time, x, 0)
             c = call(athlib.format_seconds_as_time, float(x), 0) if isinstance(x, int) and abs(x) < 2 ** 53 else b
+            if isinstance(x, int) and abs(x) < 2 ** 53:
+                # an int duration (what parse_hms returns for '1:03') at every precision: the same text as for the float
+                for p in (1, 2, 3):
+                    ai, af = call(athlib.format_seconds_as_time, x, p), call(athlib.format_seconds_as_time, float(x), p)
+                    if ai[:2] != af[:2]:
+                        return [V('default-precision', ['format', 'int-duration-differs'], dict(case, prec=p), ai[:2], af[:2])]
         else:
             a, b = call(athlib.round_up_str_num, x), call(athlib.round_up_str_num, x, 2)
             c = b
@@ -251,7 +257,9 @@ def examine_parse(case):
             exact = exact * 60 + Fraction(f if not f.startswith('.') else '0' + f)
         all_int = all(f.isdigit() for f in fields)
         if r[0] == 'exc':
-            out.append(V('parse-exact', ['parse', 'refused-well-formed'], case, r[:3], str(exact)))
+            if all_int or exact <= Fraction(10) ** 300:
+                # (a value with a decimal part beyond the range of floats has no number to return: refusing it is allowed)
+                out.append(V('parse-exact', ['parse', 'refused-well-formed'], case, r[:3], str(exact)))
         elif all_int:
             if not isinstance(r[1], int) or r[1] != exact:
                 out.append(V('parse-exact', ['parse', 'int-value'], case, r[1], str(exact)))
@@ -280,6 +288,9 @@ def gen_structured(rng):
         i = rng.randrange(len(fs))
         if rng.randrange(6) == 0:
             fs[i] = str(2 ** 53 + rng.randrange(1, 2000))
+        elif rng.randrange(8) == 0:
+            # hundreds of digits: beyond any float (next to a decimal field the sum cannot be formed)
+            fs[i] = str(rng.randrange(1, 10)) + '0' * rng.randrange(300, 420)
         k = rng.randrange(6)
         fs[i] = [' ' + fs[i], fs[i] + ' ', '+' + fs[i], '\t' + fs[i], ' +' + fs[i] + ' ', fs[i]][k]
         if k == 5:
